@@ -35,7 +35,7 @@ Access(e) ==
   /\ nextId' = IF isPush \/ st1 = <<>> THEN nextId + 1 ELSE nextId
   /\ writer' = IF e.k = "s" /\ st1 # <<>> /\ s >= 0
                THEN [x \in DOMAIN writer \cup {s} |-> IF x = s THEN TopOf(st1).id ELSE writer[x]] ELSE writer
-  /\ bad' = IF rule = "none" THEN bad ELSE Append(bad, <<i, rule>>)
+  /\ bad' = IF rule = "none" \/ Len(bad) >= 1000 THEN bad ELSE Append(bad, <<i, rule>>)
   /\ runs' = runs
 
 Next ==
